@@ -1,8 +1,12 @@
 //! pvh — the implementation side of the correspondence checks.
 //!   pvh <property> [--tier quick|thorough] [--seed N] [--model PATH] [--out FILE] [--replay FILE]
 #![allow(clippy::all)]
+#![allow(dead_code)]
+mod c09;
+mod c10;
 mod c15;
 mod gallina;
+mod impls;
 mod model;
 mod report;
 mod rng;
@@ -51,6 +55,8 @@ fn main() {
     // a panic inside a case is caught by the case runner; keep the default hook quiet
     std::panic::set_hook(Box::new(|_| {}));
     match args[1].to_ascii_lowercase().as_str() {
+        "c09" => c09::run(&ctx),
+        "c10" => c10::run(&ctx),
         "c15" => c15::run(&ctx),
         other => {
             eprintln!("unknown property {other}");
